@@ -49,6 +49,12 @@ Order(c) == CASE c = "Tetrahedral" -> 12 [] c = "SquarePlanar" -> 8
               [] c = "TrigonalBipyramidal" -> 6 [] c = "Octahedral" -> 24
               [] c = "PlanarBond" -> 4 [] c = "AtropBond" -> 4
 
+(* the generated tables are exactly the groups derived from the figures *)
+ASSUME TablesAreDerived == \A c \in Classes :
+   /\ GSym(c) = DerivedSym(c)
+   /\ GProper(c) = DerivedProper(c)
+   /\ GImproper(c) = DerivedImproper(c)
+
 ASSUME GroupThm == \A c \in Classes :
    /\ IsGroup(Proper(c), Arity(c))
    /\ IsGroup(Sym(c), Arity(c))
